@@ -15,6 +15,8 @@ where
             return None;
         }
         let reader = self.base.region().create_reader();
+        #[cfg(feature = "verif")]
+        reader.verif_access(HEADER_OFFSET + index * size_of::<T>(), size_of::<T>(), "ReadOnlyRawVec::collect_one_at");
         Some(unsafe {
             S::read_from_ptr(
                 reader.prefixed(HEADER_OFFSET).as_ptr(),
@@ -34,6 +36,8 @@ where
         buf.reserve(to - from);
         if S::IS_NATIVE_LAYOUT {
             let reader = self.base.region().create_reader();
+            #[cfg(feature = "verif")]
+            reader.verif_access(HEADER_OFFSET + from * size_of::<T>(), (to - from) * size_of::<T>(), "ReadOnlyRawVec::read_into_at");
             let src = unsafe {
                 std::slice::from_raw_parts(
                     reader
